@@ -489,7 +489,25 @@ def gen_case(rng, tier):
     kind = rng.weighted([("hosted", 9), ("cowd", 2), ("sesparse", 5), ("flat", 1)])
     if kind == "flat":
         return gen_flat(rng, tier)
-    return gen_sparse(rng, tier, kind)
+    c = gen_sparse(rng, tier, kind)
+    # a delta link: grains absent from the extent come from the parent at the same sector (zero grains do not)
+    c["with_parent"] = rng.chance(0.35)
+    c["parent_salt"] = rng.randrange(1 << 30)
+    return c
+
+
+class ParentDisk:
+    """the parent of a delta extent as SparseDisk sees it: read_sectors(sector, count) in whole-disk coordinates"""
+
+    def __init__(self, sectors, salt):
+        self.sf = core.SparseFile(sectors * SECTOR, {}, salt=salt)
+
+    def read_sectors(self, sector, count):
+        return self.sf.content(sector * SECTOR, count * SECTOR)
+
+
+def parent_of(case):
+    return ParentDisk(case["capacity"], case["parent_salt"]) if case.get("with_parent") else None
 
 
 # ----------------------------------------------------------------------------- Coq rendering
@@ -568,6 +586,8 @@ class VmdkSuite(Suite):
             return out
         out["size"] = int(v.size)
         d = v.disks[0]
+        if case.get("with_parent"):
+            d.parent = parent_of(case)          # as VMDK.__init__ does for a monolithic sparse delta (sparse_disk.parent = ...)
         if case["kind"] != "flat":
             out["info"] = [int(bool(d.is_sesparse)), int(d.header.flags), int(d.header.capacity), int(d.header.grain_size),
                            int(d._grain_directory_size), int(d._grain_table_size)]
@@ -613,13 +633,14 @@ class VmdkSuite(Suite):
                     "@nil (res (list (list Z))), "
                     "@nil (Z * (Z * Z)))")
         fh, _ = build_image(case)
+        hp = core.cbool(bool(case.get("with_parent")))
         for kind, a, b in case["reqs"]:
             s0, cnt, _, _ = spec_range(case, kind, a, b)
-            spec = f"spec_plan (guest_src f sp 0 false) 512 {Z(s0 * SECTOR)} {Z(cnt)}"
+            spec = f"spec_plan (guest_src f sp 0 {hp}) 512 {Z(s0 * SECTOR)} {Z(cnt)}"
             if kind == "sectors":
                 model = f"vmdk_read_sectors v {Z(a)} {Z(b)}"
             elif kind == "dsectors":
-                model = (f"match sparse_read_sectors f sp 0 false (fuel_for {Z(b)}) {Z(a)} {Z(b)} with "
+                model = (f"match sparse_read_sectors f sp 0 {hp} (fuel_for {Z(b)}) {Z(a)} {Z(b)} with "
                          f"Ok p => Ok (map (fun s => (0, s)) p) | Err => Err | Fuel => Fuel end")
             elif kind == "raw":
                 model = f"vmdk_read v {Z(a)} {Z(b)}"
@@ -631,7 +652,7 @@ class VmdkSuite(Suite):
             plan_items.append(f"({model}, {spec})")
         cg = "; ".join(f"({Z(sec)}, cgrain_range f sp {Z(sec)})" for sec, _, _ in case.get("cgrains", []))
         return (f"let f := {file_term(case, fh)} in match open_sparse f with "
-                f"| Ok sp => let v := mk_vmdk [XSparse f sp false] in "
+                f"| Ok sp => let v := mk_vmdk [XSparse f sp {hp}] in "
                 f"(Ok (v_size v, sp_info sp), ([" + "; ".join(plan_items) + "] : list (res xplan * list seg)), "
                 f"([" + "; ".join(run_items) + "] : list (res (list (list Z)))), ([" + cg + "] : list (Z * (Z * Z)))) "
                 "| Err => (Err, [], [], []) | Fuel => (Fuel, [], [], []) end")
@@ -644,11 +665,14 @@ class VmdkSuite(Suite):
         gs = case["grain_size"]
         st = {g: (s, p) for g, s, p in case["states"]}
         comp = bool(case["flags"] & F_COMPRESSED)
+        par = parent_of(case)
         out = []
         for s in range(first_sector, first_sector + count):
             g, o = divmod(s, gs)
             state, phys = st.get(g, ("absent", 0))
-            if state != "data":
+            if state in ("absent", "notable") and par is not None:
+                out.append(par.read_sectors(s, 1))
+            elif state != "data":
                 out.append(b"\x00" * SECTOR)
             elif comp:
                 out.append(infl[phys][0][o * SECTOR:(o + 1) * SECTOR])
@@ -691,8 +715,10 @@ class VmdkSuite(Suite):
                 raise KeyError(f"no compressed grain stored at sector {d}")
             return infl[d][0][k:k + n]
 
+        par = parent_of(case)
+
         def mat(p):
-            return core.materialise(p, file=fh, infl=infl_fn)
+            return core.materialise(p, file=fh, infl=infl_fn, parent=(lambda o, n: par.sf.content(o, n)) if par else None)
 
         # compressed-grain header arithmetic
         for cv in cg_vals:
